@@ -457,7 +457,7 @@ func init() {
 						emit(c20Type{c})
 					}
 				},
-				Check: c20CheckType, Batch: 4,
+				Check: witnessEnum(c20CheckType, witnessPSI), Batch: 4,
 			},
 			&engine.Enum[c20DescCase]{
 				Name: "descriptors",
@@ -469,7 +469,7 @@ func init() {
 						}
 					}
 				},
-				Check: c20CheckDescCase, Batch: 1,
+				Check: witnessEnum(c20CheckDescCase, witnessPSI), Batch: 1,
 			},
 		},
 	})
